@@ -315,7 +315,7 @@ def shard(shard, nshards, n, seed, n_real=1):
     have_scipy = scipy_available()
     res.count("bessel-forms-generated" if have_scipy else "bessel-forms-excluded:scipy-not-importable")
     with scratch(f"vf-c18-{shard}-") as wd:
-        drive(strategies.form_specs(dict(P_FORMS, bessel=have_scipy)), lambda s: evaluate_form(s, wd), n, (PROP, seed, shard, "forms"), res, shrink_calls=30)
+        drive(strategies.forms(dict(P_FORMS, bessel=have_scipy)), lambda s: evaluate_form(s, wd), n, (PROP, seed, shard, "forms"), res, shrink_calls=30)
         # a sample through numba's own compiler (about 5 s per kernel)
         small = dict(P_FORMS, bessel=False, max_integrals=2, cells=["interval", "triangle", "quadrilateral", "tetrahedron"])
         drive(strategies.form_specs(small), lambda s: evaluate_form(s, wd, real_numba=True), n_real, (PROP, seed, shard, "real-numba"), res, shrink_calls=4)
